@@ -153,6 +153,14 @@ pub trait Property: Sync + Send + 'static {
     fn claims_termination(&self) -> bool {
         false
     }
+    /// A failure (by signature) that the check has already confirmed by repetition INSIDE the
+    /// case and whose trigger is a real race between threads that the harness does not own: a
+    /// re-execution from scratch cannot be expected to hit the window again. Such a failure is
+    /// re-executed more often than others, and if it still does not repeat it is reported all
+    /// the same, with the case that showed it (its replay is then probabilistic).
+    fn self_confirming(&self, _sig: &str) -> bool {
+        false
+    }
     /// coverage-guided stage of the thorough tier (libFuzzer through cargo-fuzz)
     fn fuzz(&self) -> Option<FuzzSpec> {
         None
@@ -1208,6 +1216,26 @@ pub fn run<P: Property>(prop: P, tier: Tier, seed: u64) -> RunResult {
                                                 break 'outer;
                                             }
                                             Ok(_) => {}
+                                        }
+                                    }
+                                }
+                                if verdict.is_none() {
+                                    let ff = first_fail.borrow().clone();
+                                    if let Some((c, f)) = ff {
+                                        if prop.self_confirming(&f.sig) {
+                                            for _ in 0..40 {
+                                                if let Err(f2) = ex.exec(&c) {
+                                                    if !known_sigs.contains(&f2.sig) && !f2.sig.starts_with("inconclusive/") {
+                                                        verdict = Some((c.clone(), f2));
+                                                        break;
+                                                    }
+                                                }
+                                            }
+                                            if verdict.is_none() {
+                                                eprintln!("note: {} was confirmed inside the case but did not repeat in 49 re-executions (a race between threads); reported with the case that showed it", f.sig);
+                                                let msg = format!("{} [confirmed by repetition inside the case; did not repeat in 49 re-executions from scratch: the trigger is a race between threads, replaying the file reproduces it only with some probability]", f.msg);
+                                                verdict = Some((c, Fail::new(f.sig, msg)));
+                                            }
                                         }
                                     }
                                 }
